@@ -1,15 +1,31 @@
 """Gen/Streamtabs.v: the declarative tables of testtools.testresult.real that the
-stream models (StreamRec.v, StreamConv.v) rest on, read from the imported live
-code of the tree under test (DESIGN 3.2).  Used by C09 and C10.
+stream models (StreamRec.v, StreamConv.v) rest on, obtained from the imported live
+code of the tree under test (DESIGN 3.2).  Used by C09, C10 and C11.
 
-  status_map        _status_map (status word -> TestResult method name)
-  interim_states    INTERIM_STATES (None and status words)
-  final_states      FINAL_STATES
-  summary_keys      keys of StreamSummary()._handle_status
-  summary_bucket    for each key: the StreamSummary list attribute that grows when the handler is called (probed)
-  e2s_status_word   for each ExtendedToStreamDecorator.add*: the final status word it emits (probed through a
-                    recording sink)
+Every entry is found by PROBING PUBLIC BEHAVIOUR (one status event through a fresh
+public consumer between startTestRun and stopTestRun), so that renaming or
+restructuring private names (`_status_map`, `StreamSummary._handle_status`, the
+per-status handler methods, `_hook` ...) cannot break the proof layer as long as
+the behaviour is the same.  A private name is read only as a fallback when a
+probe itself cannot be carried out (and is then reported in a Gallina comment).
+
+  status_map        status word -> TestResult method by which StreamToExtendedDecorator replays a test that ends
+                    with that status (what `_status_map` says); no entry = nothing is replayed ('exists')
+  interim_states    None / status words on whose arrival StreamToDict does NOT report the test (INTERIM_STATES)
+  final_states      status words on whose arrival StreamToDict reports the test at once (FINAL_STATES)
+  summary_keys      status words a test may end with without StreamSummary raising (the statuses it has a handler for)
+  summary_bucket    for each of them: the public StreamSummary list that grows by one (None = no list)
+  e2s_status_word   for each ExtendedToStreamDecorator.add*: the final status word it emits (through a recording sink)
+
+The status words probed are the eight documented in StreamResult.status() plus whatever the public module constants
+INTERIM_STATES / FINAL_STATES / STATES of the tree under test name (when they exist), so that a word added there shows
+up in the tables and re-states the table obligations.
 """
+
+DOCUMENTED = ("exists", "fail", "inprogress", "skip", "success", "unknown", "uxsuccess", "xfail")
+LISTS = ("failures", "errors", "skipped", "expectedFailures", "unexpectedSuccesses")
+ADD_METHODS = ("addError", "addExpectedFailure", "addFailure", "addSkip", "addSuccess", "addUnexpectedSuccess")
+PROBE_ID = "probe"
 
 
 def _s(x):
@@ -25,22 +41,93 @@ def _lst(items):
     return "[" + "; ".join(items) + "]"
 
 
-LISTS = ("failures", "errors", "skipped", "expectedFailures", "unexpectedSuccesses")
+def universe():
+    """the status words to probe (strings only; None is probed separately where it makes sense)"""
+    from testtools.testresult import real
+    words = set(DOCUMENTED)
+    for const in ("INTERIM_STATES", "FINAL_STATES", "STATES"):
+        try:
+            words.update(w for w in getattr(real, const, ()) if isinstance(w, str))
+        except TypeError:
+            pass
+    return sorted(words)
 
 
+# ---------------- interim / final: does the event make StreamToDict report the test at once? ----------------
+def reported_at_once(word):
+    from testtools.testresult.real import StreamToDict
+    seen = []
+    s = StreamToDict(seen.append)
+    s.startTestRun()
+    s.status(test_id=PROBE_ID, test_status=word)
+    at_once = len(seen)
+    s.stopTestRun()
+    if at_once not in (0, 1) or len(seen) != 1:
+        raise AssertionError("status %r: %d report(s) at the event, %d after stopTestRun" % (word, at_once, len(seen)))
+    return at_once == 1
+
+
+def probe_states():
+    """(interim, final) by behaviour; falls back to the module constants if StreamToDict cannot be probed"""
+    try:
+        interim, final = [], []
+        for w in [None] + universe():
+            (final if reported_at_once(w) else interim).append(w)
+        if None in final:
+            raise AssertionError("an event without status reports a test")
+        return interim, final, None
+    except Exception as e:       # noqa - the probe itself failed: read the constants
+        from testtools.testresult import real
+        return (list(real.INTERIM_STATES), list(real.FINAL_STATES),
+                "probe failed (%s); INTERIM_STATES/FINAL_STATES read" % type(e).__name__)
+
+
+# ---------------- status word -> method replayed by StreamToExtendedDecorator ----------------
+def replayed_as(word):
+    from testtools.testresult import doubles
+    from testtools.testresult.real import StreamToExtendedDecorator
+    log = doubles.ExtendedTestResult()
+    s = StreamToExtendedDecorator(log)
+    s.startTestRun()
+    s.status(test_id=PROBE_ID, test_status=word)
+    s.stopTestRun()
+    calls = [e[0] for e in log._events if e[0] in ADD_METHODS]     # _events: the documented record of the doubles
+    if not calls:
+        return None
+    return calls[0] if len(calls) == 1 else "SEVERAL"
+
+
+def probe_status_map():
+    try:
+        out = []
+        for w in universe():
+            m = replayed_as(w)
+            if m is not None:
+                out.append((w, m))
+        return out, None
+    except Exception as e:       # noqa - the probe itself failed: read the private table
+        from testtools.testresult import real
+        return sorted(real._status_map.items()), "probe failed (%s); _status_map read" % type(e).__name__
+
+
+# ---------------- StreamSummary: handled statuses and the list each lands in ----------------
 def probe_buckets():
-    from testtools import PlaceHolder
+    """[(status word, list name | None | 'SEVERAL')] for every status word a test may end with without
+    StreamSummary raising.  A test 'ends with' an interim word by still having it at stopTestRun."""
     from testtools.testresult.real import StreamSummary
     out = []
-    for key in sorted(StreamSummary()._handle_status):
+    for key in universe():
         s = StreamSummary()
-        s.startTestRun()
         try:
-            s._handle_status[key](PlaceHolder("probe"))
-            grew = [a for a in LISTS if len(getattr(s, a)) == 1]
-            name = grew[0] if len(grew) == 1 else (None if not grew else "SEVERAL")
-        except Exception:
-            name = "RAISED"
+            s.startTestRun()
+            s.status(test_id=PROBE_ID, test_status=key)
+            s.stopTestRun()
+        except Exception:        # noqa - no handler for this status (KeyError in the current code)
+            continue
+        grew = [a for a in LISTS if len(getattr(s, a)) == 1]
+        if any(len(getattr(s, a)) > 1 for a in LISTS):
+            grew = ["SEVERAL", "SEVERAL"]
+        name = grew[0] if len(grew) == 1 else (None if not grew else "SEVERAL")
         out.append((key, name))
     return out
 
@@ -50,7 +137,7 @@ def probe_status_words():
     from testtools.testresult import doubles
     from testtools.testresult.real import ExtendedToStreamDecorator
     out = []
-    for meth in ("addError", "addExpectedFailure", "addFailure", "addSkip", "addSuccess", "addUnexpectedSuccess"):
+    for meth in ADD_METHODS:
         sink = doubles.StreamResult()
         r = ExtendedToStreamDecorator(sink)
         try:
@@ -69,15 +156,19 @@ def probe_status_words():
 
 
 def render():
-    from testtools.testresult import real
-    sm = sorted(real._status_map.items())
-    interim = sorted(real.INTERIM_STATES, key=lambda x: (x is not None, x or ""))
-    final = sorted(real.FINAL_STATES)
-    keys = sorted(real.StreamSummary()._handle_status)
+    sm, sm_note = probe_status_map()
+    interim, final, st_note = probe_states()
+    interim = sorted(interim, key=lambda x: (x is not None, x or ""))
+    final = sorted(final)
+    buckets = probe_buckets()
+    keys = [k for k, _ in buckets]
     t = []
     t.append("From Coq Require Import String List.")
     t.append("Import ListNotations.")
     t.append("Open Scope string_scope.")
+    for note in (sm_note, st_note):
+        if note:
+            t.append("(* NOTE: %s *)" % note.replace("*)", "* )").replace("(*", "( *"))
     t.append("(* testtools.testresult.real._status_map *)")
     t.append("Definition status_map : list (string * string) := %s." %
              _lst("(%s, %s)" % (_s(k), _s(v)) for k, v in sm))
@@ -87,7 +178,7 @@ def render():
     t.append("(* keys of StreamSummary()._handle_status, and the list each handler appends to *)")
     t.append("Definition summary_keys : list string := %s." % _lst(_s(x) for x in keys))
     t.append("Definition summary_bucket : list (string * option string) := %s." %
-             _lst("(%s, %s)" % (_s(k), _opt(v)) for k, v in probe_buckets()))
+             _lst("(%s, %s)" % (_s(k), _opt(v)) for k, v in buckets))
     t.append("(* final status word emitted by each ExtendedToStreamDecorator.add* *)")
     t.append("Definition e2s_status_word : list (string * string) := %s." %
              _lst("(%s, %s)" % (_s(k), _s(v)) for k, v in probe_status_words()))
